@@ -370,7 +370,9 @@ def walker_gate(fx):
     if not te:
         return [anchor_ob("R-ORDER", "the walker has no branch on config.no_clobber")]
     effects = ro.performers(fx, f, {CB_SEND, CREATE_DIR_ALL}, direct_only=True)
-    eff_blocks = [b for b, t, h in effects if "Operation" in " ".join(t.get("arg_tys", [])) or
+    import p_thread as _pt
+    _pt._op_types(fx)
+    eff_blocks = [b for b, t, h in effects if _pt._has_op(" ".join(t.get("arg_tys", []))) or
                   q.names(t)[0] == CREATE_DIR_ALL]
     if len(eff_blocks) < 2:
         obs.append(anchor_ob("R-ORDER", "walker effects (sends of Operation + create_dir_all) found %d" % len(eff_blocks)))
@@ -465,6 +467,45 @@ def _gates_of_block(f, bi):
     return out
 
 
+def _declared_conflict(fx, a, b):
+    """Location of a clap `Arg::new(x).conflicts_with(y)` with {x, y} == {a, b} in the binary's derive expansion."""
+    from cfg import Prov
+    for f in fx.fns.values():
+        if f.crate != "xcp":
+            continue
+        tbl = None
+        for bi, t in f.calls(include_cleanup=False) if hasattr(f, "calls") else []:
+            o = q.names(t)[0] or ""
+            if not o.startswith("clap_builder::builder::arg::Arg::conflicts_with") or len(t["args"]) < 2:
+                continue
+            other = (t["args"][1].get("c") or {}).get("s")
+            if other not in (a, b):
+                continue
+            if tbl is None:
+                tbl = {}
+                for _b2, t2 in f.calls():
+                    n2 = q.names(t2)[0] or ""
+                    if n2.startswith("clap_builder::builder::arg::Arg::") and not n2.endswith("::new"):
+                        tbl[n2] = [0]
+            l = op_local(t["args"][0])
+            if l is None:
+                continue
+            atoms, _f, _s = Prov(f, table=tbl).origins(l)
+            for at in atoms:
+                if at.kind == "call" and at.what.endswith("Arg::new") and at.site is not None:
+                    nm = None
+                    for arg in at.site.node["args"]:
+                        nm = nm or (arg.get("c") or {}).get("s")
+                    if nm is None:
+                        ca, _a2, _f2 = q.arg_origin_calls(f, at.site.node, 0)
+                        for a2 in _a2:
+                            if a2.kind == "const" and isinstance(a2.what, str):
+                                nm = nm or a2.what.split(":")[-1]
+                    if nm is not None and {nm.strip('"'), other} == {a, b}:
+                        return q.loc_of(t)
+    return None
+
+
 def force_conflict(fx):
     """(d) --no-clobber with --force is rejected before the copy starts (on main's inlined view, so the check may
     live in any helper or method of the options type)."""
@@ -479,6 +520,13 @@ def force_conflict(fx):
     both = [(u, v) for (u, v) in fr if any(u in edge_region(m, a, b) | {b} for (a, b) in nc)] or \
            [(u, v) for (u, v) in nc if any(u in edge_region(m, a, b) | {b} for (a, b) in fr)]
     if not both:
+        # the conflict may be declared to the option parser instead (`#[arg(conflicts_with = "no_clobber")]`): the
+        # parser then rejects the combination inside Opts::parse(), before main does anything
+        decl = _declared_conflict(fx, "force", "no_clobber")
+        if decl:
+            obs.append(Ob("R-ORDER", mkkey("R-ORDER", MAIN, "no_clobber&&force", 0, "declared-conflict"), True, decl, MAIN,
+                          "--force and --no-clobber are declared as conflicting to the option parser (rejected while parsing)"))
+            return obs
         obs.append(anchor_ob("R-ORDER", "main: no branch on no_clobber && force"))
     sp = [bi for bi, t in q.calls_to(m, {SPAWN})]
     for k, (u, v) in enumerate(both):
